@@ -1,26 +1,40 @@
 """C06 — DSL 2.0 compilation preserves the dataflow and parameter bindings.
 
-Implementation under test (real code, in-process):
-  experiment.model.frontends.dsl.Namespace(**doc) -> namespace_to_flowir(ns) -> FlowIRConcrete
-  observed: raw()['components'] (stage, name, command.arguments, references), validate(), or the exception
-  (type; for DSLInvalidError the locations of its underlying errors).
+Implementation under test (real code, in-process), two driver paths:
+  direct: experiment.model.frontends.dsl.Namespace(**doc) -> namespace_to_flowir(ns) -> FlowIRConcrete
+  conf:   the namespace written as a package (conf/dsl.yaml) + 0-2 user variable files, loaded through
+          experiment.model.conf.ExperimentConfigurationFactory.configurationForExperiment(...) (the real
+          DSLExperimentConfiguration: user variables -> override_entrypoint_args) -> get_flowir_concrete()
+  observed: raw()['components'] (stage, name, command.arguments, references, environment), validate(), or the
+  exception (type; for DSLInvalidError — possibly wrapped in ExperimentInvalidConfigurationError — the locations
+  of its underlying errors).
 Model: lean/St4sd/Model/Dsl.lean via drv-c06 (flattenOp = the code's walk, flattenSpec = denotational).
 Oracle: `expected()` below — a direct recursive evaluation of the generated namespace written independently
 of the model (instances = paths of step names, parameter values along the call chain, producers by path).
 
 Abstract namespaces: values are token lists  {"l": text} | {"p": param} | {"r": [loc…], "m": method|None, "k": spelling}
-| {"s": [path…], "m": method|None};  `render_*` turns them into the YAML-shaped document for the real code.
+| {"s": [path…], "m": method|None} | {"v": dict | number | bool} (a non-string value: always the only token of
+its value; "raw": True when it does not pass through pydantic, i.e. in user variables);  `render_*` turns them
+into the YAML-shaped document for the real code.  ns["userVars"] = [[name, value]…] (the `global` user
+variables), ns["varFiles"] = [[name…]…] (how they are spread over variable files), ns["path"] = direct | conf.
 """
 from __future__ import annotations
 
 import copy
+import json
+import logging
+import os
 import re
+import shutil
 import signal
+import tempfile
 
 ENTRY = "entry-instance"
 METHODS = ["ref", "output"]
 STEP_POOL = ["a", "b", "c", "gen", "sim", "foo", "foo-I", "foo-II", "x.y", "p_q", "foo-III"]
 WORDS = ["alpha", "beta", "7", "x=1", "run", "-v", "n_2", "k.9", "zz"]
+NUMBERS = [0, 5, 42, 2.5, -1.5, True, False]
+DICTS = [{"OMP_NUM_THREADS": "4"}, {"MODE": "fast", "LEVEL": "2"}, {"A": "1"}, {"MODE": "slow"}]
 
 
 class Hang(Exception):
@@ -63,8 +77,31 @@ def tok_text(t):
     return s
 
 
+_ADAPTER = []
+
+
+def scalar_text(t):
+    """text the code embeds for a number / boolean: str() of the value as the document schema keeps it
+    (pydantic coerces e.g. booleans of ParameterValueType); user variables reach the compiler as they are"""
+    x = t["v"]
+    if not t.get("raw"):
+        if not _ADAPTER:
+            import pydantic
+            import experiment.model.frontends.dsl as D
+            _ADAPTER.append(pydantic.TypeAdapter(D.ParameterValueType))
+        x = _ADAPTER[0].validate_python(x)
+    return str(x)
+
+
+def canon(x):
+    return json.dumps(x, sort_keys=True, separators=(",", ":"))
+
+
 def val_text(v):
-    return "".join(tok_text(t) for t in v)
+    """document value of a token list: the object itself for a non-string value, text otherwise"""
+    if len(v) == 1 and "v" in v[0]:
+        return copy.deepcopy(v[0]["v"])
+    return "".join(canon(t["v"]) if "v" in t else tok_text(t) for t in v)
 
 
 def render_doc(ns):
@@ -78,17 +115,48 @@ def render_doc(ns):
                                    "execute": [{"target": "<%s>" % e["target"],
                                                 "args": {n: val_text(v) for n, v in e["args"]}} for e in t["execute"]]}))
         else:
-            comps.append((t["idx"], {"signature": sig, "command": {"executable": "echo", "arguments": val_text(t["args"])}}))
+            cmd = {"executable": "echo", "arguments": val_text(t["args"])}
+            if t.get("env"):
+                cmd["environment"] = "%(" + t["env"] + ")s"
+            comps.append((t["idx"], {"signature": sig, "command": cmd}))
     return {"entrypoint": {"entry-instance": ns["entry"],
                            "execute": [{"target": "<entry-instance>", "args": {n: val_text(v) for n, v in ns["entryArgs"]}}]},
             "workflows": [d for _i, d in sorted(wfs, key=lambda x: x[0])],
             "components": [d for _i, d in sorted(comps, key=lambda x: x[0])]}
 
 
+def _mtok(t):
+    if "v" not in t:
+        return t
+    if isinstance(t["v"], dict):
+        return {"d": canon(t["v"])}
+    if isinstance(t["v"], list):
+        return {"d": canon(t["v"])}  # never sent: lists are refused by the document schema
+    return {"n": scalar_text(t)}
+
+
+def _mval(v):
+    return [_mtok(t) for t in v]
+
+
 def model_request(ns):
     # get_template searches components first, then workflows
-    ts = sorted(ns["templates"], key=lambda t: (t["wf"], t["idx"]))
-    return {"op": "flatten", "templates": ts, "entry": ns["entry"], "entryArgs": ns["entryArgs"]}
+    ts = []
+    for t in sorted(ns["templates"], key=lambda t: (t["wf"], t["idx"])):
+        t = copy.deepcopy(t)
+        for p in t["params"]:
+            if p["default"] is not None:
+                p["default"] = _mval(p["default"])
+        if t["wf"]:
+            for e in t["execute"]:
+                e["args"] = [[n, _mval(v)] for n, v in e["args"]]
+        else:
+            t["args"] = _mval(t["args"])
+            t["env"] = t.get("env")
+        ts.append(t)
+    return {"op": "flatten", "templates": ts, "entry": ns["entry"],
+            "entryArgs": [[n, _mval(v)] for n, v in ns["entryArgs"]],
+            "userVars": [[n, _mval(v)] for n, v in ns.get("userVars", [])]}
 
 
 # ----------------------------------------------------------------------------------------
@@ -111,6 +179,37 @@ def trunc_loc(loc):
     return ["?"] + [str(x) for x in loc[:2]]
 
 
+def _observe(f):
+    """FlowIRConcrete -> what the property talks about"""
+    raw = f.raw()
+    envs = (raw.get("environments") or {}).get("default") or {}
+    comps = []
+    for c in raw.get("components", []):
+        cmd = c.get("command", {})
+        args = cmd.get("arguments", "")
+        if not isinstance(args, str):
+            args = "non-string:" + repr(args)
+        env = cmd.get("environment")
+        if env is not None and env != "none":
+            env = canon(envs[env]) if env in envs else "unknown-environment:" + str(env)
+        comps.append({"stage": c.get("stage", 0), "name": c["name"], "args": args,
+                      "refs": sorted(c.get("references", [])), "env": env})
+    try:
+        val = [type(x).__name__ + ": " + str(x)[:200] for x in f.validate()]
+    except Hang:
+        raise
+    except Exception as exc:  # noqa
+        val = ["validate-raises:" + type(exc).__name__]
+    return {"components": comps, "validate": val}
+
+
+def _invalid(exc):
+    locs = []
+    for e in exc.underlying_errors:
+        locs.append(list(getattr(e, "location", []) or []))
+    return {"invalid": locs, "messages": [str(e)[:200] for e in exc.underlying_errors][:4]}
+
+
 def impl(doc, timeout=3):
     import experiment.model.frontends.dsl as D
     import experiment.model.errors as E
@@ -124,27 +223,11 @@ def impl(doc, timeout=3):
         except Exception as exc:  # noqa
             return {"exception": "pydantic:" + type(exc).__name__}
         try:
-            f = D.namespace_to_flowir(ns)
-            raw = f.raw()
-            comps = []
-            for c in raw.get("components", []):
-                comps.append({"stage": c.get("stage", 0), "name": c["name"],
-                              "args": c.get("command", {}).get("arguments", ""),
-                              "refs": sorted(c.get("references", []))})
-            try:
-                val = [type(x).__name__ + ": " + str(x)[:200] for x in f.validate()]
-            except Hang:
-                raise
-            except Exception as exc:  # noqa
-                val = ["validate-raises:" + type(exc).__name__]
-            return {"components": comps, "validate": val}
+            return _observe(D.namespace_to_flowir(ns))
         except Hang:
             raise
         except E.DSLInvalidError as exc:
-            locs = []
-            for e in exc.underlying_errors:
-                locs.append(list(getattr(e, "location", []) or []))
-            return {"invalid": locs, "messages": [str(e)[:200] for e in exc.underlying_errors][:4]}
+            return _invalid(exc)
         except Exception as exc:  # noqa
             return {"exception": type(exc).__name__, "message": str(exc)[:200]}
     except Hang:
@@ -154,20 +237,90 @@ def impl(doc, timeout=3):
         signal.signal(signal.SIGALRM, old)
 
 
+def variable_files(ns):
+    """the documents of the user variable files of a conf-path case"""
+    given = dict((n, v) for n, v in ns.get("userVars", []))
+    return [{"global": {n: val_text(given[n]) for n in names}} for names in ns.get("varFiles", [])]
+
+
+def impl_conf(doc, var_docs, timeout=5):
+    """second driver path: package on disk + user variable files through the real configuration factory"""
+    import yaml
+    import experiment.model.conf as C
+    import experiment.model.errors as E
+    scratch = tempfile.mkdtemp(prefix="c06-")
+    old = signal.signal(signal.SIGALRM, _alarm)
+    signal.alarm(timeout)
+    logging.disable(logging.CRITICAL)
+    try:
+        pkg = os.path.join(scratch, "ns.package")
+        os.makedirs(os.path.join(pkg, "conf"))
+        with open(os.path.join(pkg, "conf", "dsl.yaml"), "w") as f:
+            yaml.safe_dump(doc, f)
+        paths = []
+        for i, v in enumerate(var_docs):
+            paths.append(os.path.join(scratch, "variables%d.yaml" % i))
+            with open(paths[-1], "w") as f:
+                yaml.safe_dump(v, f)
+        try:
+            conf = C.ExperimentConfigurationFactory.configurationForExperiment(
+                pkg, variable_files=paths, createInstanceFiles=False, updateInstanceFiles=False,
+                is_instance=False, primitive=True)
+            if type(conf).__name__ != "DSLExperimentConfiguration":
+                return {"exception": "not-loaded-as-dsl:" + type(conf).__name__}
+            return _observe(conf.get_flowir_concrete())
+        except Hang:
+            raise
+        except E.DSLInvalidError as exc:
+            return _invalid(exc)
+        except E.ExperimentInvalidConfigurationError as exc:
+            under = getattr(exc, "underlyingError", None)
+            if isinstance(under, E.DSLInvalidError):
+                return _invalid(under)
+            return {"exception": "ExperimentInvalidConfigurationError(" + type(under).__name__ + ")",
+                    "message": str(exc)[:200]}
+        except Exception as exc:  # noqa
+            return {"exception": type(exc).__name__, "message": str(exc)[:200]}
+    except Hang:
+        return {"exception": "HANG", "message": "no answer within %d s" % timeout}
+    finally:
+        signal.alarm(0)
+        signal.signal(signal.SIGALRM, old)
+        logging.disable(logging.NOTSET)
+        shutil.rmtree(scratch, ignore_errors=True)
+
+
 # ----------------------------------------------------------------------------------------
 # oracle: direct recursive evaluation (independent of the model)
 # ----------------------------------------------------------------------------------------
 
-def _eval(v, scope_path, env):
-    """value written inside the workflow instance `scope_path` -> list of ('l', text) | ('r', abs path tuple, method)"""
+def _eval(v, scope_path, env, site=None, errors=None):
+    """value written inside the workflow instance `scope_path` -> list of ('l', text) | ('r', abs path tuple, method)
+    | ('v', token of a non-string value).  `%(p)s` as the whole value hands the value on as it is; inside a
+    longer string a number is embedded as its text and a dictionary is a mistake of the field at `site`."""
+    if len(v) == 1 and "p" in v[0]:
+        if v[0]["p"] not in env:
+            raise KeyError(v[0]["p"])
+        return list(env[v[0]["p"]])
     out = []
     for t in v:
         if "l" in t:
             out.append(("l", t["l"]))
+        elif "v" in t:
+            out.append(("v", t))
         elif "p" in t:
             if t["p"] not in env:
                 raise KeyError(t["p"])
-            out.extend(env[t["p"]])
+            for x in env[t["p"]]:
+                if x[0] == "v":
+                    if isinstance(x[1]["v"], (dict, list)):
+                        if errors is not None:
+                            errors.append(site)
+                        out.append(("l", "(dictionary)"))
+                    else:
+                        out.append(("l", scalar_text(x[1])))
+                else:
+                    out.append(x)
         elif "r" in t:
             loc = tuple(t["r"])
             if not (loc and loc[0] == ENTRY):
@@ -185,36 +338,54 @@ def _eval(v, scope_path, env):
     return merged
 
 
-def expected(ns):
-    """-> list of {path, step, toks} for every component step reachable from the entrypoint"""
+def expected(ns, errors=None):
+    """-> list of {path, step, toks, env} for every component step reachable from the entrypoint; the truncated
+    locations of the fields that misuse a non-string value are appended to `errors`"""
     by_name = {}
     for t in sorted(ns["templates"], key=lambda t: (t["wf"], t["idx"])):
         by_name.setdefault(t["name"], t)
     insts = []
+    if errors is None:
+        errors = []
 
-    def bind(callee, args, scope_path, env):
+    def bind(callee, args, scope_path, env, site):
         new = {}
         given = dict((n, v) for n, v in args)
         for p in callee["params"]:
             if p["name"] in given:
-                new[p["name"]] = _eval(given[p["name"]], scope_path, env)
+                new[p["name"]] = _eval(given[p["name"]], scope_path, env, site, errors)
             elif p["default"] is not None:
-                new[p["name"]] = _eval(p["default"], scope_path, env)
+                new[p["name"]] = _eval(p["default"], scope_path, env, site, errors)
         return new
 
     def go(t, path, env, depth, site=None):
         if depth > 12:
             raise RecursionError()
         if not t["wf"]:
-            insts.append({"path": tuple(path), "step": path[-1], "toks": _eval(t["args"], path[:-1], env), "site": site})
+            here = site or ["components", t["idx"], None]
+            cenv = None
+            if t.get("env"):
+                cenv = env.get(t["env"])
+                ok = cenv is not None and len(cenv) == 1 and (
+                    (cenv[0][0] == "v" and isinstance(cenv[0][1]["v"], dict)) or cenv[0] == ("l", "none"))
+                if not ok:
+                    errors.append(here)
+                    cenv = "invalid"
+            insts.append({"path": tuple(path), "step": path[-1], "site": site, "env": cenv,
+                          "toks": _eval(t["args"], path[:-1], env, ["components", t["idx"], None], errors)})
             return
         steps = dict((s, tn) for s, tn in t["steps"])
         for j, e in enumerate(t["execute"]):
             callee = by_name[steps[e["target"]]]
-            go(callee, path + [e["target"]], bind(callee, e["args"], path, env), depth + 1, ["workflows", t["idx"], j])
+            here = ["workflows", t["idx"], j]
+            go(callee, path + [e["target"]], bind(callee, e["args"], path, env, here), depth + 1, here)
 
     root = by_name[ns["entry"]]
-    go(root, [ENTRY], bind(root, ns["entryArgs"], [], {}), 0)
+    # the call chain of an entry parameter starts at the user variables: user variable, else the argument of
+    # entrypoint.execute[0], else the declared default
+    given = dict((n, v) for n, v in ns["entryArgs"])
+    given.update(dict((n, v) for n, v in ns.get("userVars", [])))
+    go(root, [ENTRY], bind(root, list(given.items()), [], {}, ["entrypoint"]), 0)
     paths = [i["path"] for i in insts]
     for i in insts:
         prods = []
@@ -232,6 +403,8 @@ def _regex_for(inst):
     for x in inst["toks"]:
         if x[0] == "l":
             parts.append(re.escape(x[1]))
+        elif x[0] == "v":
+            parts.append(re.escape(canon(x[1]["v"]) if isinstance(x[1]["v"], (dict, list)) else scalar_text(x[1])))
         else:
             prod = inst["producers"][n]
             rest = x[1][len(prod):]
@@ -241,13 +414,24 @@ def _regex_for(inst):
     return re.compile("".join(parts))
 
 
+def _want_env(e):
+    if e["env"] is None:
+        return None
+    if e["env"] == [("l", "none")]:
+        return "none"
+    return canon(e["env"][0][1]["v"])
+
+
 def oracle_valid(ns, out):
     """None, or (slug, detail) when the property fails on the implementation's answer for a valid namespace"""
     if "exception" in out:
         return ("valid-namespace-raises-" + out["exception"], out)
     if "invalid" in out:
         return ("valid-namespace-rejected", out)
-    exp = expected(ns)
+    errs = []
+    exp = expected(ns, errs)
+    if errs:
+        raise KeyError("the valid stream misuses a non-string value at %r" % errs)
     comps = out["components"]
     ids = [(c["stage"], c["name"]) for c in comps]
     if len(set(ids)) != len(ids):
@@ -270,10 +454,11 @@ def oracle_valid(ns, out):
             if not (c["name"] == e["step"] or c["name"].startswith(e["step"] + "-")):
                 continue
             m = rg.fullmatch(c["args"])
-            if m:
+            if m and c.get("env") == _want_env(e):
                 cs.append((k, m.groupdict()))
         if not cs:
             return ("no-component-with-the-bound-arguments", {"instance": list(e["path"]), "expected_tokens": e["toks"],
+                                                              "expected_environment": _want_env(e),
                                                               "components": comps})
         cands.append(cs)
     order = sorted(range(len(exp)), key=lambda i: len(cands[i]))
@@ -340,7 +525,15 @@ def oracle_invalid(ns, fault, out):
     if "components" in out:
         return ("invalid-namespace-accepted", {"fault": fault, "components": out["components"]})
     locs = [trunc_loc(l) for l in out["invalid"]]
-    accept = [fault["loc"]]
+    accept = [fault["loc"]] if fault.get("loc") else []
+    if fault["kind"] in VALUE_FAULTS:
+        # a non-string value in the wrong place is a mistake of the field(s) that misuse it
+        errs = []
+        try:
+            expected(ns, errs)
+        except (KeyError, RecursionError):
+            pass
+        accept += errs
     if fault["kind"] in ("unknown-nested-step-in-reference", "reference-to-workflow-step"):
         # a broken reference that travels through parameters surfaces where a component consumes it
         try:
@@ -351,6 +544,11 @@ def oracle_invalid(ns, fault, out):
         return ("error-does-not-list-the-offending-location", {"fault": fault, "listed": out["invalid"]})
     return None
 
+
+VALUE_FAULTS = ("dictionary-embedded-in-execute-argument", "dictionary-embedded-in-component-arguments",
+                "dictionary-given-for-a-text-parameter", "text-or-number-given-as-environment",
+                "unknown-parameter-as-environment")
+CONF_ONLY_FAULTS = ("list-valued-argument", "unknown-user-variable", "parameter-reference-in-user-variable")
 
 # ----------------------------------------------------------------------------------------
 # generator
@@ -374,18 +572,36 @@ def spelled(rng, loc, m, in_workflow):
     return t
 
 
+def number(rng):
+    return {"v": rng.choice(NUMBERS)}
+
+
+def dictionary(rng):
+    return {"v": copy.deepcopy(rng.choice(DICTS))}
+
+
+def lit_default(rng):
+    return [number(rng)] if rng.random() < 0.25 else [lit(rng, pad=False)]
+
+
 def gen_component(rng, name, idx, tagged):
     params = []
     args = [lit(rng)]
+    env = None
     if tagged:
         params.append({"name": "tag", "default": None, "kind": "lit"})
         args += [{"p": "tag"}, lit(rng)]
+    if rng.random() < 0.35:
+        # the component takes its environment (a dictionary of variables, or the literal none) as a parameter
+        env = "env"
+        params.append({"name": "env", "kind": "dict",
+                       "default": [dictionary(rng)] if rng.random() < 0.3 else None})
     for i in range(rng.randint(0, 3)):
         kind = rng.choice(["lit", "lit", "ref", "pref"])
         pn = "%s%d" % ({"lit": "v", "ref": "in", "pref": "src"}[kind], i)
         default = None
         if kind == "lit" and rng.random() < 0.5:
-            default = [lit(rng, pad=False)]
+            default = lit_default(rng)
         params.append({"name": pn, "default": default, "kind": kind})
         if kind == "pref":
             args += [{"p": pn}, {"s": [], "m": rng.choice(METHODS)}, lit(rng)]
@@ -393,7 +609,8 @@ def gen_component(rng, name, idx, tagged):
             args += [{"p": pn}, lit(rng)]
             if kind == "lit" and rng.random() < 0.2:
                 args += [{"p": pn}, lit(rng)]  # used twice
-    return {"name": name, "wf": False, "idx": idx, "params": params, "args": args}
+    rng.shuffle(params)
+    return {"name": name, "wf": False, "idx": idx, "params": params, "args": args, "env": env}
 
 
 def component_paths(t, by_name):
@@ -413,9 +630,11 @@ def gen_workflow(rng, name, idx, pool, by_name, tagged, must_use=None, root=Fals
     if tagged:
         params.append({"name": "tag", "default": None, "kind": "lit"})
     for i in range(nparams):
-        kind = "lit" if root else rng.choice(["lit", "lit", "ref", "pref"])
-        pn = "%s%d" % ({"lit": "w", "ref": "rin", "pref": "rsrc"}[kind], i)
-        default = [lit(rng, pad=False)] if kind == "lit" and rng.random() < 0.5 else None
+        kind = rng.choice(["lit", "lit", "dict"]) if root else rng.choice(["lit", "lit", "ref", "pref", "dict"])
+        pn = "%s%d" % ({"lit": "w", "ref": "rin", "pref": "rsrc", "dict": "wenv"}[kind], i)
+        default = lit_default(rng) if kind == "lit" and rng.random() < 0.5 else None
+        if kind == "dict" and rng.random() < 0.3:
+            default = [dictionary(rng)]
         params.append({"name": pn, "default": default, "kind": kind})
     nsteps = rng.randint(1, 4)
     names = rng.sample(STEP_POOL, nsteps)
@@ -438,11 +657,26 @@ def gen_workflow(rng, name, idx, pool, by_name, tagged, must_use=None, root=Fals
                 own = [q for q in params if q["kind"] == "lit" and q["name"] != "tag"]
                 r = rng.random()
                 if own and r < 0.4:
-                    v = [{"p": rng.choice(own)["name"]}]  # forwarded
+                    v = [{"p": rng.choice(own)["name"]}]  # forwarded as the whole value (keeps the type of a number)
                 elif own and r < 0.6:
                     v = [{"l": rng.choice(WORDS) + "-"}, {"p": rng.choice(own)["name"]}, {"l": "_" + rng.choice(WORDS)}]
+                elif r < 0.72:
+                    v = [number(rng)]  # a number / boolean
                 else:
                     v = [lit(rng, pad=False)]  # literal / overriding the default
+                args.append([p["name"], v])
+                continue
+            if kind == "dict":
+                if p["default"] is not None and rng.random() < 0.4:
+                    continue  # defaulted
+                own = [q for q in params if q["kind"] == "dict"]
+                r = rng.random()
+                if own and r < 0.65:
+                    v = [{"p": rng.choice(own)["name"]}]  # a dictionary can only be forwarded as the whole value
+                elif r < 0.92:
+                    v = [dictionary(rng)]
+                else:
+                    v = [{"l": "none"}]  # the literal none: empty environment
                 args.append([p["name"], v])
                 continue
             # a reference: to an earlier sibling, or forwarded from an own parameter
@@ -521,19 +755,52 @@ def gen_namespace(rng, depth):
         if not ok:
             continue
         root = by_name[levels[depth][0]]
-        # the entry template takes only literal parameters
-        if any(p["kind"] != "lit" for p in root["params"]):
+        # the entry template takes only literal parameters and dictionaries
+        if any(p["kind"] not in ("lit", "dict") for p in root["params"]):
             continue
         entry_args = []
         for p in root["params"]:
             if p["name"] == "tag":
                 entry_args.append(["tag", [{"l": "T"}]])
             elif p["default"] is None or rng.random() < 0.5:
-                entry_args.append([p["name"], [lit(rng, pad=False)]])
+                if p["kind"] == "dict":
+                    entry_args.append([p["name"], [dictionary(rng)]])
+                else:
+                    entry_args.append([p["name"], [number(rng)] if rng.random() < 0.2 else [lit(rng, pad=False)]])
         ns = {"templates": list(by_name.values()), "entry": root["name"], "entryArgs": entry_args}
         prune(ns)
         return ns
     raise RuntimeError("generator could not build a namespace")
+
+
+def with_user_variables(rng, ns):
+    """a conf-path case: the namespace is loaded as a package together with 0-2 user variable files whose
+    `global` sections name parameters of the entry template (passed by the entrypoint, or only defaulted)"""
+    ns = copy.deepcopy(ns)
+    root = [t for t in ns["templates"] if t["name"] == ns["entry"]][0]
+    names = [p["name"] for p in root["params"] if p.get("kind", "lit") == "lit"]
+    rng.shuffle(names)
+    chosen = names[:rng.randint(0, len(names))] if rng.random() < 0.85 else []
+    given = {a[0] for a in ns["entryArgs"]}
+    only_default = [n for n in names if n not in given]
+    if chosen and only_default and not set(chosen) & set(only_default) and rng.random() < 0.7:
+        chosen.append(rng.choice(only_default))  # a parameter the entrypoint leaves to its declared default
+    uvars = []
+    for n in chosen:
+        r = rng.random()
+        if r < 0.3:
+            v = [dict(number(rng), raw=True)]
+        else:
+            v = [{"l": "user-" + rng.choice(WORDS)}]
+        uvars.append([n, v])
+    nfiles = rng.choice([1, 1, 2]) if uvars else rng.choice([0, 0, 1])
+    files = [[] for _ in range(nfiles)]
+    for n, _v in uvars:
+        files[rng.randrange(nfiles)].append(n)
+    ns["userVars"] = uvars
+    ns["varFiles"] = files
+    ns["path"] = "conf"
+    return ns
 
 
 def prune(ns):
@@ -569,21 +836,79 @@ def strip_kinds(ns):
 # single-fault mutations
 # ----------------------------------------------------------------------------------------
 
-def mutate(rng, ns):
-    """-> (mutated namespace, fault) or None.  fault = {kind, loc (truncated location that must be listed)}"""
+STRUCTURAL_FAULTS = ("unknown-template", "unknown-argument", "unknown-parameter-in-execute",
+                     "unknown-parameter-in-component", "missing-argument", "unknown-step-in-reference",
+                     "unknown-nested-step-in-reference", "reference-to-workflow-step", "cycle",
+                     "step-name-ends-with-digit", "missing-execute", "unknown-entry-template",
+                     "missing-entry-argument", "unknown-entry-argument")
+
+
+def mutate(rng, ns, kind=None):
+    """-> (mutated namespace, fault) or None.  fault = {kind, loc (truncated location that must be listed, or None
+    when the offending fields are those found by the independent evaluation)}"""
+    r = _mutate(rng, ns, kind)
+    if r is not None and r[1]["kind"] in VALUE_FAULTS:
+        errs = []
+        try:
+            expected(strip_kinds(r[0]), errs)
+        except (KeyError, RecursionError):
+            return None
+        if not errs:
+            return None  # e.g. the "dictionary" is the literal none, or the value never reaches a use: still valid
+    return r
+
+
+def _mutate(rng, ns, kind=None):
     ns = copy.deepcopy(ns)
     wfs = [t for t in ns["templates"] if t["wf"]]
     comps = [t for t in ns["templates"] if not t["wf"]]
     by_name = {t["name"]: t for t in ns["templates"]}
-    kinds = ["unknown-template", "unknown-argument", "unknown-parameter-in-execute", "unknown-parameter-in-component",
-             "missing-argument", "unknown-step-in-reference", "unknown-nested-step-in-reference",
-             "reference-to-workflow-step", "cycle", "step-name-ends-with-digit", "missing-execute",
-             "unknown-entry-template", "missing-entry-argument", "unknown-entry-argument"]
-    kind = rng.choice(kinds)
+    kinds = list(STRUCTURAL_FAULTS) + list(VALUE_FAULTS) * 2
+    if ns.get("path") == "conf":
+        kinds += list(CONF_ONLY_FAULTS) * 4
+    kind = kind or rng.choice(kinds)
+    if kind in CONF_ONLY_FAULTS and ns.get("path") != "conf":
+        return None
     if not wfs and kind not in ("unknown-parameter-in-component", "unknown-entry-template", "missing-entry-argument",
-                                "unknown-entry-argument"):
+                                "unknown-entry-argument", "dictionary-embedded-in-component-arguments",
+                                "unknown-parameter-as-environment", "unknown-user-variable",
+                                "parameter-reference-in-user-variable"):
         return None
     root = by_name[ns["entry"]]
+    if kind == "unknown-user-variable":
+        ns.setdefault("userVars", []).append(["nosuch", [{"l": "x"}]])
+        ns.setdefault("varFiles", [])
+        if not ns["varFiles"]:
+            ns["varFiles"].append([])
+        rng.choice(ns["varFiles"]).append("nosuch")
+        return ns, {"kind": kind, "loc": ["entrypoint"]}
+    if kind == "parameter-reference-in-user-variable":
+        cands = [p["name"] for p in root["params"] if p.get("kind", "lit") == "lit"]
+        if len(cands) < 1:
+            return None
+        n = rng.choice(cands)
+        other = rng.choice([p["name"] for p in root["params"]])
+        ns["userVars"] = [a for a in ns.get("userVars", []) if a[0] != n] + [[n, [{"l": "u-"}, {"p": other}]]]
+        files = ns.setdefault("varFiles", [])
+        for f in files:
+            if n in f:
+                f.remove(n)
+        if not files:
+            files.append([])
+        rng.choice(files).append(n)
+        return ns, {"kind": kind, "loc": ["entrypoint"]}
+    if kind == "dictionary-embedded-in-component-arguments":
+        cands = [c for c in comps if any(p.get("kind") == "dict" for p in c["params"])]
+        if not cands:
+            return None
+        c = rng.choice(cands)
+        q = rng.choice([p["name"] for p in c["params"] if p.get("kind") == "dict"])
+        c["args"] = c["args"] + [{"p": q}, lit(rng)]
+        return ns, {"kind": kind, "loc": ["components", c["idx"], None]}
+    if kind == "unknown-parameter-as-environment":
+        c = rng.choice(comps)
+        c["env"] = "nosuch"
+        return ns, {"kind": kind, "loc": None}
     if kind == "unknown-entry-template":
         ns["entry"] = "nosuch-template"
         return ns, {"kind": kind, "loc": ["entrypoint"]}
@@ -591,7 +916,8 @@ def mutate(rng, ns):
         ns["entryArgs"].append(["nosuch", [{"l": "x"}]])
         return ns, {"kind": kind, "loc": ["entrypoint"]}
     if kind == "missing-entry-argument":
-        req = [p["name"] for p in root["params"] if p["default"] is None]
+        supplied = {a[0] for a in ns.get("userVars", [])}  # a user variable can stand in for the argument
+        req = [p["name"] for p in root["params"] if p["default"] is None and p["name"] not in supplied]
         if not req:
             return None
         n = rng.choice(req)
@@ -611,6 +937,33 @@ def mutate(rng, ns):
             if st[0] == e["target"]:
                 st[1] = "nosuch-template"
         return ns, {"kind": kind, "loc": here}
+    if kind in ("dictionary-embedded-in-execute-argument", "dictionary-given-for-a-text-parameter",
+                "text-or-number-given-as-environment", "list-valued-argument"):
+        callee = by_name[steps[e["target"]]]
+        want = "dict" if kind == "text-or-number-given-as-environment" else "lit"
+        cands = [p for p in callee["params"] if p.get("kind") == want and p["name"] != "tag"]
+        if not cands:
+            return None
+        pn = rng.choice(cands)["name"]
+        if kind == "dictionary-embedded-in-execute-argument":
+            own = [q["name"] for q in w["params"] if q.get("kind") == "dict"]
+            if not own:
+                return None
+            q = rng.choice(own)
+            v = rng.choice([[{"l": "settings="}, {"p": q}], [{"p": q}, {"l": ".json"}],
+                            [{"l": "a="}, {"p": q}, {"l": " b"}], [{"p": q}, {"p": q}]])
+            loc = here
+        elif kind == "dictionary-given-for-a-text-parameter":
+            v = [dictionary(rng)]
+            loc = None
+        elif kind == "text-or-number-given-as-environment":
+            v = rng.choice([[{"l": "fast"}], [number(rng)], [{"l": "environment"}]])
+            loc = None
+        else:
+            v = [{"v": [1, "two"]}]
+            loc = here
+        e["args"] = [a for a in e["args"] if a[0] != pn] + [[pn, v]]
+        return ns, {"kind": kind, "loc": loc}
     if kind == "unknown-argument":
         e["args"].append(["nosuch", [{"l": "x"}]])
         return ns, {"kind": kind, "loc": here}
@@ -722,8 +1075,10 @@ def model_view(m):
         return {"invalid": sorted(set(map(lambda l: tuple(map(str, l)), locs)))}
     comps = []
     for c in m["ok"]:
-        comps.append([c["name"], "".join(otoks_text(c["args"])), sorted(set(otoks_text(c["refs"])))])
-    return {"components": sorted(comps)}
+        env = c.get("env") or {"k": "unset"}
+        comps.append([c["name"], "".join(otoks_text(c["args"])), sorted(set(otoks_text(c["refs"]))),
+                      {"unset": None, "none": "none"}.get(env["k"], env.get("d"))])
+    return {"components": sorted(comps, key=canon)}
 
 
 def impl_view(out):
@@ -731,7 +1086,7 @@ def impl_view(out):
         return {"exception": out["exception"]}
     if "invalid" in out:
         return {"invalid": sorted(set(tuple(map(str, trunc_loc(l))) for l in out["invalid"]))}
-    return {"components": sorted([c["name"], c["args"], c["refs"]] for c in out["components"])}
+    return {"components": sorted(([c["name"], c["args"], c["refs"], c.get("env")] for c in out["components"]), key=canon)}
 
 
 def classify_name_collision(what, case, detail):
@@ -750,10 +1105,16 @@ def classify_ref_to_workflow(what, case, detail):
         "unknown-nested-step-in-reference", "reference-to-workflow-step")
 
 
+def classify_env_unknown(what, case, detail):
+    """command.environment names a parameter the component does not have: KeyError after the error was recorded"""
+    return what == "invalid-namespace-raises-KeyError" and case.get("fault", {}).get("kind") == "unknown-parameter-as-environment"
+
+
 CLASSIFIERS = {
     "c06_step_named_like_generated_name": classify_name_collision,
     "c06_step_name_ends_with_digit": classify_digit_step,
     "c06_reference_into_workflow_without_component": classify_ref_to_workflow,
+    "c06_unknown_parameter_as_environment": classify_env_unknown,
 }
 
 
@@ -783,7 +1144,37 @@ def corpus():
                                           {"target": "c", "args": [["x", [{"r": loc, "m": "ref", "k": k}]]]}]),
                               _t("inner", True, 1, [], steps=[["p", "prod"]], execute=[{"target": "p", "args": []}])],
                 "entry": "main", "entryArgs": []}
+    # a dictionary of environment variables forwarded verbatim through two workflow levels / embedded in a string
+    sim = _t("simulate", False, 0, [("env", None), ("label", [{"l": "none"}]), ("n", [{"v": 3}])],
+             args=[{"l": "run "}, {"p": "label"}, {"l": " -n "}, {"p": "n"}], env="env")
+
+    def envcase(label_of_second):
+        return {"templates": [sim,
+                              _t("main", True, 0, [("env", None)], steps=[["first", "inner"], ["second", "inner"]],
+                                 execute=[{"target": "first", "args": [["env", [{"p": "env"}]], ["label", [{"l": "plain"}]]]},
+                                          {"target": "second", "args": [["env", [{"p": "env"}]], ["label", label_of_second]]}]),
+                              _t("inner", True, 1, [("env", None), ("label", None)], steps=[["run", "simulate"]],
+                                 execute=[{"target": "run", "args": [["env", [{"p": "env"}]], ["label", [{"p": "label"}]]]}])],
+                "entry": "main", "entryArgs": [["env", [{"v": {"OMP_NUM_THREADS": "4", "MODE": "fast"}}]]]}
+    # user variables override an argument of the entrypoint and a parameter that only has a default
+    echo = _t("echo", False, 0, [("message", None), ("suffix", [{"l": "!"}])], args=[{"p": "message"}, {"p": "suffix"}])
+    uv = {"templates": [echo,
+                        _t("main", True, 0, [("explicit", [{"l": "default-explicit"}]), ("defaulted", [{"l": "default-defaulted"}]),
+                                             ("untouched", [{"v": 7}])],
+                           steps=[["greet", "echo"], ["inner", "inner"]],
+                           execute=[{"target": "greet", "args": [["message", [{"p": "explicit"}, {"l": " "}, {"p": "defaulted"},
+                                                                              {"l": " "}, {"p": "untouched"}]]]},
+                                    {"target": "inner", "args": [["forwarded", [{"p": "explicit"}, {"l": "+"}, {"p": "defaulted"}]]]}]),
+                        _t("inner", True, 1, [("forwarded", None)], steps=[["greet", "echo"]],
+                           execute=[{"target": "greet", "args": [["message", [{"l": "nested "}, {"p": "forwarded"}]]]}])],
+          "entry": "main", "entryArgs": [["explicit", [{"l": "from-entrypoint"}]]],
+          "userVars": [["explicit", [{"l": "from-user"}]], ["defaulted", [{"v": 2.5, "raw": True}]]],
+          "varFiles": [["explicit"], ["defaulted"]], "path": "conf"}
     return [
+        ("valid", "corpus:dictionary-forwarded-verbatim", envcase([{"l": "also plain"}]), None),
+        ("invalid", "corpus:dictionary-embedded-in-a-string", envcase([{"l": "settings="}, {"p": "env"}]),
+         {"kind": "dictionary-embedded-in-execute-argument", "loc": ["workflows", 0, 1]}),
+        ("valid", "corpus:user-variables-over-argument-and-default", uv, None),
         ("valid", "corpus:foo,foo-I+nested-foo", a, None),
         ("invalid", "corpus:step1", b, {"kind": "step-name-ends-with-digit", "loc": ["workflows", 0, 0]}),
         ("invalid", "corpus:ref-nested-nosuch", refcase(["a", "nosuch"], 1), {"kind": "unknown-nested-step-in-reference", "loc": ["workflows", 0, 1]}),
@@ -819,6 +1210,21 @@ def features(ns):
         tags.append("partial-reference-completed")
     if any(isinstance(t.get("k"), str) for t in toks if "r" in t):
         tags.append("alternative-reference-spelling")
+    every = toks + [tok for a in ns["entryArgs"] for tok in a[1]] + \
+        [tok for t in ns["templates"] for p in t["params"] if p["default"] for tok in p["default"]]
+    if any("v" in t and isinstance(t["v"], dict) for t in every):
+        tags.append("dictionary-value")
+    if any("v" in t and not isinstance(t["v"], (dict, list)) for t in every):
+        tags.append("number-or-boolean-value")
+    if any(t.get("env") for t in ns["templates"] if not t["wf"]):
+        tags.append("environment-from-parameter")
+    if ns.get("path") == "conf":
+        tags.append("files:%d" % len(ns.get("varFiles", [])))
+        root = by_name.get(ns["entry"])
+        given = {a[0] for a in ns["entryArgs"]}
+        for n, _v in ns.get("userVars", []):
+            if root and any(p["name"] == n for p in root["params"]):
+                tags.append("user-variable-over-entrypoint-argument" if n in given else "user-variable-over-default-only")
     for t in ns["templates"]:
         if t["wf"]:
             st = dict((s, tn) for s, tn in t["steps"])
@@ -839,12 +1245,15 @@ def check_cases(ctx, cases):
     for idx, (stream, label, ns, fault) in enumerate(cases):
         ns = strip_kinds(ns)
         doc = render_doc(ns)
-        out = impl(doc)
+        path = ns.get("path", "direct")
+        out = impl(doc) if path == "direct" else impl_conf(doc, variable_files(ns))
         tags, d = features(ns)
+        tags.append("path:" + path)
         m = mouts[idx] if mouts is not None else None
         case = {"stream": stream, "label": label, "ns": ns, "fault": fault, "old": (m or {}).get("old") or {}}
         n_inst = len(m.get("spec", [])) if m else 0
-        nontrivial = (d >= 2 and "parameter-forwarded" in tags) or stream == "invalid"
+        nontrivial = (d >= 2 and "parameter-forwarded" in tags) or stream == "invalid" or \
+            (path == "conf" and bool(ns.get("userVars")))
         ctx.case({"stream": stream, "ns": ns, "fault": fault}, nontrivial=nontrivial,
                  tags=tags + ["stream:" + stream, "impl:" + ("components" if "components" in out else
                                                              "invalid" if "invalid" in out else "exception:" + out["exception"])]
@@ -878,6 +1287,9 @@ def check_cases(ctx, cases):
             known_family = any(fn(why[0], case, detail) for fn in CLASSIFIERS.values())
             if known_family:
                 ctx.tag("compare-skipped(defect family of fixes/C06-*.diff)")
+        if fault and fault["kind"] == "list-valued-argument":
+            ctx.tag("compare-skipped(lists are refused by the document schema, outside the model)")
+            continue
         if m is not None and not known_family:
             ctx.compare("namespace_to_flowir == Dsl.flattenOp (components, arguments, references | error locations)",
                         case, model_view(m), impl_view(out))
@@ -899,17 +1311,35 @@ def run(ctx):
                 "3 (quick) / 4 (thorough), 1-4 steps each drawn from lower levels (templates reused), step names from a "
                 "small pool that contains foo, foo-I, foo-II (name clashes), parameters literal / complete reference / "
                 "partial reference, each argument forwarded, combined with literals, defaulted or overridden, output "
-                "references to earlier siblings or into their nested workflows with 4 spellings; plus a stream of "
-                "single-fault mutations (14 kinds).  Non-trivial = nesting depth >= 2 with a forwarded parameter, or an "
-                "invalid-stream case; distinct by canonical JSON.")
+                "references to earlier siblings or into their nested workflows with 4 spellings; parameter values are "
+                "text, numbers / booleans (argument, default, forwarded as the whole value, embedded in a string) or "
+                "dictionaries (forwarded as the whole value down to a component that uses the parameter as its "
+                "command.environment; the literal none); plus a stream of single-fault mutations (14 structural kinds + "
+                "5 kinds that put a non-string value in the wrong place: dictionary embedded in a longer string of an "
+                "execute argument / of command.arguments, dictionary given for a text parameter, text or number given as "
+                "environment, environment naming an unknown parameter).  Second driver path (conf): a sample of the "
+                "namespaces is written as a package and loaded through the configuration factory with 0-2 user "
+                "variable files whose global sections override entry parameters that the entrypoint passes and "
+                "parameters that only have a default (text / number / boolean values), plus mutations of those "
+                "(+ unknown user variable, parameter reference inside a user variable, list-valued argument).  "
+                "Non-trivial = nesting depth >= 2 with a forwarded parameter, or an invalid-stream case, or a conf-path "
+                "case with at least one user variable; distinct by canonical JSON.")
     ctx.assumptions = [
-        "parameter values are strings; literal chunks never contain % < > \" : (no legacy data references)",
-        "no `stage<N>.` prefixes in step names, no environments / variables / replicate / key outputs",
-        "template names are unique; defaults are literals; a workflow lists at most one execute entry per step",
+        "literal chunks never contain % < > \" : (no legacy data references) and are never empty",
+        "no `stage<N>.` prefixes in step names, no variables / replicate / key outputs; an environment only through "
+        "command.environment: \"%(param)s\"",
+        "template names are unique; defaults are literals, numbers or dictionaries (no null values: the code renders "
+        "null as the text None and treats a null default as no default); a workflow lists at most one execute entry per step",
+        "a component never consists of a single parameter reference as its whole command.arguments",
+        "user variables of different files have different names (layering order of variable files is property C15); "
+        "precedence stated by the code and tests/test_package_load.py::test_load_dsl2_with_user_variables: user "
+        "variable > argument of entrypoint.execute[0] > declared default",
         "error locations are compared after truncation to entrypoint | <collection>/<index>[/execute/<j>]",
     ]
-    ctx.trusted.append("C06: pydantic validation of the document; FlowIRConcrete.validate() as the FlowIR validator; "
-                       "harness rendering of token lists to text (reference spellings) and back")
+    ctx.trusted.append("C06: pydantic validation of the document (incl. its coercion of numbers / booleans); "
+                       "FlowIRConcrete.validate() as the FlowIR validator; harness rendering of token lists to text "
+                       "(reference spellings, str() of numbers, canonical JSON of dictionaries) and back; yaml dump/load "
+                       "of the package and variable files on the conf path")
     ctx.classifiers = CLASSIFIERS
     rng = ctx.rng
     quick = ctx.tier == "quick"
@@ -922,16 +1352,26 @@ def run(ctx):
         ns = gen_namespace(rng, d)
         valid.append(ns)
         cases.append(("valid", "gen:depth%d" % d, ns, None))
-    n_inv = 500 if quick else 4000
-    made = 0
-    tries = 0
-    while made < n_inv and tries < 20 * n_inv:
-        tries += 1
-        r = mutate(rng, rng.choice(valid))
-        if r is None:
-            continue
-        cases.append(("invalid", "mut:" + r[1]["kind"], r[0], r[1]))
-        made += 1
+    def invalid_stream(pool, n, kinds, label):
+        # the kind is chosen first (round robin) so that rarely applicable kinds are not starved
+        for i in range(n):
+            kind = kinds[i % len(kinds)]
+            for _try in range(80):
+                r = mutate(rng, rng.choice(pool), kind)
+                if r is not None:
+                    cases.append(("invalid", label + r[1]["kind"], r[0], r[1]))
+                    break
+
+    invalid_stream(valid, 600 if quick else 4500, list(STRUCTURAL_FAULTS) + list(VALUE_FAULTS) * 2, "mut:")
+    # second driver path: package + user variable files through the configuration factory
+    n_conf = 260 if quick else 2000
+    conf_valid = []
+    for i in range(n_conf):
+        ns = with_user_variables(rng, rng.choice(valid))
+        conf_valid.append(ns)
+        cases.append(("valid", "conf:%d-files" % len(ns["varFiles"]), ns, None))
+    invalid_stream(conf_valid, 160 if quick else 1200,
+                   list(CONF_ONLY_FAULTS) * 3 + list(VALUE_FAULTS) * 2 + list(STRUCTURAL_FAULTS), "conf-mut:")
     # roman numerals pin
     rm = ctx.model([{"op": "roman", "n": n} for n in range(1, 60)])
     if rm is not None:
